@@ -39,7 +39,9 @@ def universe(tier):
     objs += [(T.TVocabulary(v), f"V:{i}") for i, v in enumerate(vocs)]
     objs.append((T.Type("Custom"), "B:Custom"))
     # second, equal-but-not-identical instances (equality/hash clauses)
-    twins = [(T.TAnyVocabOfDim(16), "D:16"), (T.TAnyVocabOfDim(fresh(512)), "D:512"), (T.TVocabulary(vocs[0]), "V:0"), (T.Type("TScalar"), "S"),
+    import numpy as np
+    twins = [(T.TAnyVocabOfDim(16), "D:16"), (T.TAnyVocabOfDim(fresh(512)), "D:512"), (T.TVocabulary(vocs[0]), "V:0"),
+             (T.TAnyVocabOfDim(np.int64(16)), "D:16"), (T.TAnyVocabOfDim(np.int32(512)), "D:512"),   # NumPy integer dimensionalities (T.Type("TScalar"), "S"),
              (T.Type("Custom"), "B:Custom")]
     return objs, twins, [v.dimensions for v in vocs]
 
